@@ -435,11 +435,82 @@ fn case_flush_into_gap(out: &mut CaseOut, rng: &mut Rng) {
     out.sample = Some(json!({"family": "flush-into-gap", "ctx": ctx}));
 }
 
+
+/// A compaction task is scheduled while the worker sits between two task batches, and the
+/// database is closed before the worker looks at its channel again. Close must still return.
+fn case_close_with_queued_task(out: &mut CaseOut, rng: &mut Rng) {
+    let d = director();
+    d.reset(rng.next_u64());
+    let cfg = crate::gen::Config { memtable: *rng.pick(&[256usize, 512]), file: 4096, block: 256, reuse: true };
+    let fs = SimFs::from_image(&dbutil::root_image());
+    let options = dbutil::options(fs.as_provider(), dbutil::DB_PATH, &cfg);
+    let db = {
+        let _g = watch::enter("open");
+        match DB::open(options) {
+            Ok(db) => db,
+            Err(e) => {
+                out.violate("C09/open-failed", json!({"error": e.to_string()}));
+                return;
+            }
+        }
+    };
+    let fill_until_rotation = |db: &DB, tag: &str| -> bool {
+        let rot0 = director().note_count("mem.rotate");
+        for i in 0..400 {
+            let _g = watch::enter("put(fill)");
+            if db.put(WriteOptions::default(), format!("{tag}{i:04}").into_bytes(), vec![b'v'; 40]).is_err() {
+                return false;
+            }
+            if director().note_count("mem.rotate") > rot0 {
+                return true;
+            }
+        }
+        false
+    };
+    // the worker is parked right after it has finished a batch of tasks
+    let gate = d.arm(crate::director::COMPACTOR, "worker.idle", 1);
+    let first = fill_until_rotation(&db, "a");
+    let arrived = first && d.wait_arrived(gate, Duration::from_secs(10));
+    // a second rotation schedules a task that now sits in the worker's channel
+    let second = arrived && fill_until_rotation(&db, "b");
+    out.add("windows_attempted", 1);
+    let closer = std::thread::Builder::new().name("c09-closer".into()).spawn(move || {
+        let _g = watch::enter("close");
+        drop(db);
+    }).unwrap();
+    // give close the time to set its shutdown flag and start waiting, then let the worker go on
+    std::thread::sleep(Duration::from_millis(rng.range(5, 40)));
+    d.release(gate);
+    let deadline = Instant::now() + Duration::from_secs(15);
+    while !closer.is_finished() && Instant::now() < deadline {
+        std::thread::sleep(Duration::from_millis(2));
+    }
+    let ctx = json!({"scenario": "task scheduled while the worker is between two batches, then close", "config": cfg.describe(),
+        "worker_parked_after_first_flush": arrived, "second_rotation_scheduled_a_task": second});
+    if closer.is_finished() {
+        let _ = closer.join();
+        out.add("closes", 1);
+    } else {
+        out.violate(
+            "C09/close-never-returns/task-queued-while-worker-idle",
+            json!({"ctx": ctx, "waited_s": 15, "bg_panics": watch::panics_json(&watch::bg_panics())}),
+        );
+        // the closer thread is stuck in Drop; leave it behind
+    }
+    judge_bg_panics(out, "C09");
+    if arrived && second {
+        out.add("windows_achieved", 1);
+        out.nontrivial(format!("close-with-queued-task/mem{}", cfg.memtable));
+    }
+    out.sample = Some(json!({"family": "close-with-queued-task", "ctx": ctx}));
+}
+
 pub fn run_case(tier: &str, seed: u64, idx: u64) -> CaseOut {
     let mut out = CaseOut::new();
     let mut rng = Rng::new(mix(&[seed, idx], "c09"));
     match idx % 6 {
         0 if idx % 12 == 6 => case_flush_into_gap(&mut out, &mut rng),
+        1 if idx % 12 == 7 => case_close_with_queued_task(&mut out, &mut rng),
         0 => case_descriptors(&mut out, &mut rng),
         1 | 2 => case_history(&mut out, &mut rng, idx, tier),
         _ => case_stress(&mut out, &mut rng, tier),
